@@ -14,7 +14,7 @@ use std::collections::{BTreeMap, HashSet};
 pub const PLAIN: [&str; 10] = ["f", "x", "Some(1)", "|v| v", "g::h", "|v| v + 1", "Ok::<_, ()>(2)", "vec![1, 2].into_iter()", "self.f", "{ let c = 1; move |v| v + c }"];
 
 /// operands that contain operator look-alikes but no top-level split point
-pub const ADVERSARIAL: [&str; 76] = [
+pub const ADVERSARIAL: [&str; 82] = [
     // inside parentheses / brackets / braces
     "(a | b)",
     "(x <= y)",
@@ -97,6 +97,13 @@ pub const ADVERSARIAL: [&str; 76] = [
     "if let Some(n) = o { n } else { 0 }",
     "match r { Ok(v) if v > 0 => v, _ => 0 }",
     "S { a: 1, b: x <= y }",
+    // closure parameters that spell the middle of the `|n>` operator with what follows them
+    "|n| n > 3",
+    "|&n| n >= 2",
+    "|n| n >> 1",
+    "|a, n| n > a",
+    "|n: u8| n > 1",
+    "move |n| n",
 ];
 
 /// identifiers that are also keywords of the DSL
